@@ -402,7 +402,7 @@ def run(case):
                 pids[op_index] = (proc.pid, prog_i)
                 _check_reply(result, 'launch', nowait, outcome, proc, model, reply_state)
                 if persist_flag:
-                    state = _checkpoint_state(harness.persister, proc.pid, None)
+                    state = _checkpoint_state(harness.persister, proc.pid, None, harness.loader)
                     if state != 'created':
                         result.violate('launch_persist', str(state), f'launch with persist: checkpoint state is {state!r}, expected '
                                                                      f'the CREATED state saved before the first step')
@@ -495,13 +495,25 @@ def _has_checkpoint(persister, pid, tag):
         return False
 
 
-def _checkpoint_state(persister, pid, tag):
+def _checkpoint_state(persister, pid, tag, loader=None):
+    """State of the process a stored checkpoint describes, read through the public API only (load + unbundle)."""
+    plumpy = common.plumpy()
     try:
         bundle = persister.load_checkpoint(pid, tag)
     except Exception as exc:  # noqa: BLE001
         return f'missing:{type(exc).__name__}'
-    name = str(bundle['_state']['!!meta']['class_name'])
-    return name.rsplit(':', 1)[-1].rsplit('.', 1)[-1].lower()
+    world = None
+    try:
+        loaded = bundle.unbundle(plumpy.LoadSaveContext(loop=seams.current_loop(), loader=loader))
+        world = getattr(type(loaded), '_world', None)
+        return loaded.state.value
+    except Exception as exc:  # noqa: BLE001
+        return f'unloadable:{type(exc).__name__}'
+    finally:
+        if world is not None and world.instances and world.instances[-1] is locals().get('loaded'):
+            world.instances.pop()  # the throw-away instance is not part of the history
+            if world.events and world.events[-1][0] == 'init':
+                world.events.pop()
 
 
 def _check_reply(result, what, nowait, outcome, proc, model, reply_state):
